@@ -36,7 +36,8 @@ VARIABLES
     proc,       \* processor: [pc, item, added, victims, keys, got, path]
     cli,        \* [Clients -> [pc, ...]]                      in-flight public calls
     closed,     \* BOOLEAN                                     Cache.is_closed
-    pol,        \* [alive, closed, q]                          policy worker, LFUPolicy.is_closed, async: its stop slot
+    pol,        \* [alive, closed, q, handles]                 policy worker, LFUPolicy.is_closed, async: its stop slot;
+                \*                                             handles: some clone of the Cache still exists
     stopQ,      \* Nat                                         async only: stop messages in the capacity-1 channel
     wdone,      \* set of wait ids whose marker was released
     now,        \* clock
@@ -160,7 +161,7 @@ Init ==
     /\ costs = [i \in Idx |-> Nil] /\ used = 0
     /\ buf = <<>> /\ clearQ = 0 /\ proc = IdleProc
     /\ cli = [c \in Clients |-> IdleCli]
-    /\ closed = FALSE /\ pol = [alive |-> TRUE, closed |-> FALSE, q |-> 0] /\ stopQ = 0 /\ wdone = {}
+    /\ closed = FALSE /\ pol = [alive |-> TRUE, closed |-> FALSE, q |-> 0, handles |-> TRUE] /\ stopQ = 0 /\ wdone = {}
     /\ met = ZeroMet /\ cbs = <<>> /\ res = Nil
     /\ outcnt = [v \in Val |-> 0] /\ accepted = {} /\ owner = [v \in Val |-> Nil]
     /\ dropped = {} /\ lost = {} /\ slack = 0 /\ errSeen = FALSE /\ orphans = {} /\ kf = {} /\ gh = GhInit
@@ -838,6 +839,38 @@ LStop(c) ==
             /\ UNCHANGED cli
     /\ NoRes /\ NoCb /\ UNCH_store /\ UNCH_pol /\ UNCH_chan /\ UNCH_ghost
     /\ UNCHANGED <<closed, proc, now, met>>
+    /\ UNCH_kf
+    /\ UNCHANGED gh
+
+\* EVERY HANDLE IS DROPPED WITHOUT close() (C12: "... and also when every handle is dropped").  There is no Drop impl:
+\* the senders of the three channels go away with the last clone, the processor finds its receivers disconnected --
+\* buffered items can still be applied (a disconnected channel hands out what it holds first), and once select! takes the
+\* stop arm the loop returns and drops the rest.  The processor owned the last reference to the policy: its channels
+\* disconnect in turn and the policy worker returns.  Bound to the code by the free-running "drop" instances
+\* (FWorkersGone on real threads / tasks): the stepped processor of the harness is never dropped.
+DropAll ==
+    /\ pol.handles /\ \A c \in Clients : cli[c].pc = "idle"
+    /\ pol' = [pol EXCEPT !.handles = FALSE]
+    /\ NoRes /\ NoCb /\ UNCH_store /\ UNCH_pol /\ UNCH_chan /\ UNCH_ghost
+    /\ UNCHANGED <<closed, proc, cli, now, met>>
+    /\ UNCH_kf
+    /\ UNCHANGED gh
+
+PStopDisc ==
+    /\ ~pol.handles /\ proc.pc = "idle"
+    /\ proc' = [pc |-> "exited"]
+    /\ dropped' = dropped \cup BufVals
+    /\ buf' = <<>> /\ clearQ' = 0
+    /\ NoRes /\ NoCb /\ UNCH_store /\ UNCH_pol /\ UNCH_life
+    /\ UNCHANGED <<stopQ, wdone, orphans, cli, now, met, accepted, owner, lost, errSeen>>
+    /\ UNCH_kf
+    /\ UNCHANGED gh
+
+LStopDisc ==
+    /\ ~pol.handles /\ proc.pc = "exited" /\ pol.alive
+    /\ pol' = [pol EXCEPT !.alive = FALSE]
+    /\ NoRes /\ NoCb /\ UNCH_store /\ UNCH_pol /\ UNCH_chan /\ UNCH_ghost
+    /\ UNCHANGED <<closed, proc, cli, now, met>>
     /\ UNCH_kf
     /\ UNCHANGED gh
 
